@@ -1,4 +1,4 @@
 From Coq Require Extraction ExtrOcamlBasic.
-From GV Require Import Front.SpanCheck Front.LayoutCheck Front.Layout Front.AstEq.
+From GV Require Import Front.SpanCheck Front.LayoutCheck Front.Layout Front.AstEq Front.LayoutBalanced.
 Extraction Language OCaml.
-Extraction "model.ml" spans_ok first_bad layout_ok which_fails layout ast_eqb.
+Extraction "model.ml" spans_ok first_bad layout_ok which_fails layout ast_eqb clean_run bal.
